@@ -147,7 +147,8 @@ PROPS = {
             "level_text": "capa_penalty, dense/sparse/combined MVCAPA penalties (combined == pointwise minimum of the individually computed dense, sparse and "
                           "intermediate cumulative penalties, for every p>=2 and scale>=0), capa_penalty_factory dispatch, PELT/seeded/circular default "
                           "formulas: proved for all n, p, k, scale. Intermediate penalty (scipy chi2), quantile tuning, fitted attributes (class glue) and "
-                          "penalty monotonicity of PELT's changepoint count: bounded grid.",
+                          "penalty monotonicity of PELT's changepoint count: lemma L_pelt_pen_mono over the posts of two runs (total_cost of each run + L_bellman for the "
+                          "other run's segmentation give (b2 - b1)(K2 - K1) <= 0; L_segtot_split: SEGTOT = sum of segment costs + one penalty per segment) + bounded grid.",
             "level_note": "LOG/SQRT uninterpreted with the axiom instances listed in evidence; intermediate penalty assumed as increments of an uninterpreted "
                           "cumulative function; np.quantile assumed"},
     "C16": {"category": "proof", "driver": "C16", "claimed": True,
